@@ -38,26 +38,34 @@ theorem hop_wrap (vf : Err → Str) (id : Ident) (k : WrapKind) (c : Err) (path 
   | withDomain dom =>
     refine ⟨.wrap path (.withDomain dom) c', ?_, ?_, ?_⟩
     · simp [encode, decode, hd, typeKey, Full_knows, detOf, buildWrap, decodeHid, layerDetails, extractPrefix_self, text, wrapText]
-    · simp [shape, label, storedMark, isSigOf, isMultiNode, detOf, text, wrapText, hs, ht]
+    · simp [shape, label, storedMark, isSigOf, isMultiNode, stSigOf, detOf, text, wrapText, hs, ht]
     · simp [stable, wrapStable, hst]
   | withContext tags red =>
     simp [wrapStable] at h
-    refine ⟨.wrap path (.withContext tags (some (layerDetails Full vf (.wrap id (.withContext tags red) c)))) c', ?_, ?_, ?_⟩
+    obtain ⟨h1, h2⟩ := h
+    refine ⟨.wrap path (.withContext tags (if layerDetails Full vf (.wrap id (.withContext tags red) c) = [] then none
+        else some (layerDetails Full vf (.wrap id (.withContext tags red) c)))) c', ?_, ?_, ?_⟩
+    · simp [encode, decode, hd, typeKey, Full_knows, detOf, buildWrap, decodeHid, h1, h2]
+    · simp [shape, label, storedMark, isSigOf, isMultiNode, stSigOf, detOf, text, wrapText, hs, ht]
+    · simp [stable, wrapStable, hst, h1, h2]
+  | withMark m t =>
+    simp [wrapStable] at h
+    refine ⟨.wrap path (.withMark m t) c', ?_, ?_, ?_⟩
     · simp [encode, decode, hd, typeKey, Full_knows, detOf, buildWrap, decodeHid, h]
-    · simp [shape, label, storedMark, isSigOf, isMultiNode, detOf, text, wrapText, hs, ht]
+    · simp [shape, label, storedMark, isSigOf, isMultiNode, stSigOf, detOf, text, wrapText, hs, ht]
     · simp [stable, wrapStable, hst, h]
   | fmtWrapError msg =>
     simp [wrapStable] at h
     have hr := extract_reassemble msg (text c) h
     refine ⟨.wrap path (.opaqueWrapper (extractPrefix msg (text c)).1 (detOf Full (.wrap id (.fmtWrapError msg) c) (layerDetails Full vf (.wrap id (.fmtWrapError msg) c)) .none) (extractPrefix msg (text c)).2 []) c', ?_, ?_, ?_⟩
     · simp [encode, decode, hd, typeKey, Full_knows, detOf, buildWrap, decodeHid, text, wrapText]
-    · simp [shape, label, storedMark, isSigOf, isMultiNode, detOf, text, hs, ht, wrapText]; exact hr
+    · simp [shape, label, storedMark, isSigOf, isMultiNode, stSigOf, detOf, text, hs, ht, wrapText]; exact hr
     · simp [stable, wrapStable, hst, detOf]
   | opaqueWrapper p d mt hid =>
     simp [wrapStable] at h
     refine ⟨.wrap path (.opaqueWrapper p d mt hid) c', ?_, ?_, ?_⟩
     · simp [encode, decode, hd, Full_knows, buildWrap, h]
-    · simp [shape, label, storedMark, isSigOf, isMultiNode, detOf, text, wrapText, hs, ht]
+    · simp [shape, label, storedMark, isSigOf, isMultiNode, stSigOf, detOf, text, wrapText, hs, ht]
     · simp [stable, wrapStable, hst, h]
   | user u msg =>
     simp [wrapStable] at h
@@ -68,21 +76,21 @@ theorem hop_wrap (vf : Err → Str) (id : Ident) (k : WrapKind) (c : Err) (path 
     · simp [h0] at hsty
       refine ⟨.wrap path (.opaqueWrapper msg (detOf Full (.wrap id (.user u msg) c) (layerDetails Full vf (.wrap id (.user u msg) c)) .none) mtPrefix []) c', ?_, ?_, ?_⟩
       · simp [encode, decode, hd, typeKey, Full_knows, detOf, buildWrap, decodeHid, htm, hcl, text, wrapText, h0, extractPrefix_pfx]
-      · simp [shape, label, storedMark, isSigOf, isMultiNode, detOf, text, wrapText, hs, ht, h0, mtPrefix, mtFull, hsty]
+      · simp [shape, label, storedMark, isSigOf, isMultiNode, stSigOf, detOf, text, wrapText, hs, ht, h0, mtPrefix, mtFull, hsty]
       · simp [stable, wrapStable, hst, htm, hcl, detOf]
     · by_cases h1 : u.style = 1
       · simp [h0, h1] at hsty
         have hr := extract_reassemble msg (text c) hsty
         refine ⟨.wrap path (.opaqueWrapper (extractPrefix msg (text c)).1 (detOf Full (.wrap id (.user u msg) c) (layerDetails Full vf (.wrap id (.user u msg) c)) .none) (extractPrefix msg (text c)).2 []) c', ?_, ?_, ?_⟩
         · simp [encode, decode, hd, typeKey, Full_knows, detOf, buildWrap, decodeHid, htm, hcl, text, wrapText, h0, h1]
-        · simp [shape, label, storedMark, isSigOf, isMultiNode, detOf, text, hs, ht, wrapText, h0, h1]; exact hr
+        · simp [shape, label, storedMark, isSigOf, isMultiNode, stSigOf, detOf, text, hs, ht, wrapText, h0, h1]; exact hr
         · simp [stable, wrapStable, hst, htm, hcl, detOf]
       · refine ⟨.wrap path (.opaqueWrapper [] (detOf Full (.wrap id (.user u msg) c) (layerDetails Full vf (.wrap id (.user u msg) c)) .none) mtPrefix []) c', ?_, ?_, ?_⟩
         · simp [encode, decode, hd, typeKey, Full_knows, detOf, buildWrap, decodeHid, htm, hcl, text, wrapText, h0, h1, extractPrefix_self]
-        · simp [shape, label, storedMark, isSigOf, isMultiNode, detOf, text, wrapText, hs, ht, h0, h1, mtPrefix, mtFull]
+        · simp [shape, label, storedMark, isSigOf, isMultiNode, stSigOf, detOf, text, wrapText, hs, ht, h0, h1, mtPrefix, mtFull]
         · simp [stable, wrapStable, hst, htm, hcl, detOf]
   | _ =>
-    simp [encode, decode, hd, typeKey, Full_knows, Full_arch, detOf, buildWrap, decodeHid, decodeList, shape, label, storedMark, isSigOf, isMultiNode, text, stable,
+    simp [encode, decode, hd, typeKey, Full_knows, Full_arch, detOf, buildWrap, decodeHid, decodeList, shape, label, storedMark, isSigOf, isMultiNode, stSigOf, text, stable,
       wrapStable, wrapText, hs, ht, hst, extractPrefix_self, extractPrefix_pfx, mtPrefix, mtFull] at h ⊢
 
 theorem hop_leaf (vf : Err → Str) (id : Ident) (k : LeafKind) (path : List Nat)
@@ -99,7 +107,7 @@ theorem hop_leaf (vf : Err → Str) (id : Ident) (k : LeafKind) (path : List Nat
         simp at h2
         cases hp : d.pay <;> simp_all
       | cons a r => simp
-    · simp [shape, label, storedMark, isSigOf, isMultiNode, detOf, text, leafText]
+    · simp [shape, label, storedMark, isSigOf, isMultiNode, stSigOf, detOf, text, leafText]
     · simp [stable, leafStable, h1, h2]
   | user u msg =>
     simp [leafStable] at h
@@ -107,10 +115,22 @@ theorem hop_leaf (vf : Err → Str) (id : Ident) (k : LeafKind) (path : List Nat
     have htm := tm_user_leaf id u msg h
     refine ⟨.leaf path (.opaqueLeaf msg (detOf Full (.leaf id (.user u msg)) (layerDetails Full vf (.leaf id (.user u msg))) .none) []), ?_, ?_, ?_⟩
     · simp [encode, decode, typeKey, Full_knows, detOf, buildLeaf, decodeList, htm, hcl, text, leafText]
-    · simp [shape, label, storedMark, isSigOf, isMultiNode, detOf, text, leafText]
+    · simp [shape, label, storedMark, isSigOf, isMultiNode, stSigOf, detOf, text, leafText]
     · simp [stable, leafStable, detOf, htm, hcl]
+  | grpcStatus c m nd =>
+    simp [leafStable] at h
+    refine ⟨.leaf path (.grpcStatus c m nd), ?_, ?_, ?_⟩
+    · simp [encode, decode, typeKey, Full_knows, detOf, buildLeaf, decodeList, h]
+    · simp [shape, label, storedMark, isSigOf, isMultiNode, stSigOf, text, leafText]
+    · simp [stable, leafStable, h]
+  | gogoStatus c m nd =>
+    simp [leafStable] at h
+    refine ⟨.leaf path (.gogoStatus c m nd), ?_, ?_, ?_⟩
+    · simp [encode, decode, typeKey, Full_knows, detOf, buildLeaf, decodeList, h]
+    · simp [shape, label, storedMark, isSigOf, isMultiNode, stSigOf, text, leafText]
+    · simp [stable, leafStable, h]
   | _ =>
-    simp [encode, decode, typeKey, Full_knows, Full_arch, detOf, buildLeaf, decodeHid, decodeList, shape, label, storedMark, isSigOf, isMultiNode, text, stable,
+    simp [encode, decode, typeKey, Full_knows, Full_arch, detOf, buildLeaf, decodeHid, decodeList, shape, label, storedMark, isSigOf, isMultiNode, stSigOf, text, stable,
       leafStable, leafText] at h ⊢
 
 theorem hop_barrier (vf : Err → Str) (id : Ident) (m : RStr) (hd : Err) (path : List Nat)
@@ -119,7 +139,7 @@ theorem hop_barrier (vf : Err → Str) (id : Ident) (m : RStr) (hd : Err) (path 
   obtain ⟨c', hd', hs, hst⟩ := hc
   refine ⟨.barrier path m c', ?_, ?_, ?_⟩
   · simp [encode, decode, typeKey, Full_knows, detOf, buildLeaf, decodeHid, decodeList, hd']
-  · simp [shape, label, storedMark, isSigOf, isMultiNode, text]
+  · simp [shape, label, storedMark, isSigOf, isMultiNode, stSigOf, text]
   · simp [stable, hst]
 
 theorem hop_second (vf : Err → Str) (id : Ident) (c s : Err) (path : List Nat)
@@ -131,7 +151,7 @@ theorem hop_second (vf : Err → Str) (id : Ident) (c s : Err) (path : List Nat)
   have ht : text c' = text c := text_eq_of_shape hs
   refine ⟨.second path c' s', ?_, ?_, ?_⟩
   · simp [encode, decode, typeKey, Full_knows, detOf, buildWrap, decodeHid, hd, hd2]
-  · simp [shape, label, storedMark, isSigOf, isMultiNode, detOf, text, hs, ht]
+  · simp [shape, label, storedMark, isSigOf, isMultiNode, stSigOf, detOf, text, hs, ht]
   · simp [stable, hst, hst2]
 
 theorem shapeL_length : ∀ {a b : List Err}, shapeL a = shapeL b → a.length = b.length
@@ -160,7 +180,7 @@ theorem hop_multi (vf : Err → Str) (id : Ident) (k : MultiKind) (cs : List Err
   | join =>
     refine ⟨.multi path .join cs', ?_, ?_, ?_⟩
     · simp [encode, decode, typeKey, Full_knows, detOf, buildLeaf, decodeHid, hd, hcs]
-    · simp [shape, label, storedMark, isSigOf, isMultiNode, text, multiText, hs, ht]
+    · simp [shape, label, storedMark, isSigOf, isMultiNode, stSigOf, text, multiText, hs, ht]
     · simp [stable, multiStable, hst, hl']
   | opaqueLeafCauses msg d hid =>
     simp at h
@@ -170,17 +190,17 @@ theorem hop_multi (vf : Err → Str) (id : Ident) (k : MultiKind) (cs : List Err
       cases hid with
       | nil => simp at h2; cases hp : d.pay <;> simp_all
       | cons a r => simp
-    · simp [shape, label, storedMark, isSigOf, isMultiNode, text, multiText, hs]
+    · simp [shape, label, storedMark, isSigOf, isMultiNode, stSigOf, text, multiText, hs]
     · simp [stable, multiStable, hst, h1, h2, hl']
   | stdJoin =>
     refine ⟨.multi path (.opaqueLeafCauses (text (.multi id .stdJoin cs)) (detOf Full (.multi id .stdJoin cs) (layerDetails Full vf (.multi id .stdJoin cs)) .none) []) cs', ?_, ?_, ?_⟩
     · simp [encode, decode, typeKey, Full_knows, detOf, buildLeaf, hd, hcs]
-    · simp [shape, label, storedMark, isSigOf, isMultiNode, detOf, text, multiText, hs]
+    · simp [shape, label, storedMark, isSigOf, isMultiNode, stSigOf, detOf, text, multiText, hs]
     · simp [stable, multiStable, hst, detOf, hl']
   | fmtWrapErrors m =>
     refine ⟨.multi path (.opaqueLeafCauses (text (.multi id (.fmtWrapErrors m) cs)) (detOf Full (.multi id (.fmtWrapErrors m) cs) (layerDetails Full vf (.multi id (.fmtWrapErrors m) cs)) .none) []) cs', ?_, ?_, ?_⟩
     · simp [encode, decode, typeKey, Full_knows, detOf, buildLeaf, hd, hcs]
-    · simp [shape, label, storedMark, isSigOf, isMultiNode, detOf, text, multiText, hs]
+    · simp [shape, label, storedMark, isSigOf, isMultiNode, stSigOf, detOf, text, multiText, hs]
     · simp [stable, multiStable, hst, detOf, hl']
   | user u m =>
     simp at h
@@ -188,7 +208,7 @@ theorem hop_multi (vf : Err → Str) (id : Ident) (k : MultiKind) (cs : List Err
     have htm := tm_user_multi id u m cs h
     refine ⟨.multi path (.opaqueLeafCauses (text (.multi id (.user u m) cs)) (detOf Full (.multi id (.user u m) cs) (layerDetails Full vf (.multi id (.user u m) cs)) .none) []) cs', ?_, ?_, ?_⟩
     · simp [encode, decode, typeKey, Full_knows, detOf, buildLeaf, hd, hcs, htm, hcl]
-    · simp [shape, label, storedMark, isSigOf, isMultiNode, detOf, text, multiText, hs, htm]
+    · simp [shape, label, storedMark, isSigOf, isMultiNode, stSigOf, detOf, text, multiText, hs, htm]
     · simp [stable, multiStable, hst, detOf, htm, hcl, hl']
 
 mutual
